@@ -279,6 +279,20 @@ class ElifToNested(ast.NodeTransformer):
         return node
 
 
+class KeywordPath(ast.NodeTransformer):
+    """stream_xxx(stream, ..., path)  ->  stream_xxx(stream, ..., path=path)   (the helpers' last parameter passed by keyword)"""
+
+    HELPERS = {"stream_read": 3, "stream_write": 4, "stream_seek": 4, "stream_tell": 2, "stream_read_entire": 2, "stream_size": 1, "stream_iseof": 1}
+
+    def visit_Call(self, node):
+        self.generic_visit(node)
+        if isinstance(node.func, ast.Name) and node.func.id in self.HELPERS and len(node.args) == self.HELPERS[node.func.id] and not node.keywords \
+                and isinstance(node.args[-1], ast.Name) and node.args[-1].id == "path":
+            node.keywords = [ast.keyword(arg="path", value=node.args[-1])]
+            node.args = node.args[:-1]
+        return node
+
+
 NEUTRAL = [
     ("reformat (ast.unparse of every module)", None),
     ("rename every local variable", RenameLocals),
@@ -294,6 +308,7 @@ NEUTRAL = [
     ("rename comprehension variables", RenameCompVars),
     ("swap the operands of == / != / is", SwapEqOperands),
     ("turn elif chains into nested ifs", ElifToNested),
+    ("pass path to the stream helpers by keyword", KeywordPath),
 ]
 
 
